@@ -248,7 +248,8 @@ D_Mark(n) ==
     /\ UnchApi /\ UnchCluster /\ UNCHANGED <<prov, wk, dis, cmd, queue, inf, crash, bud>>
 
 \* ---------------------------------------------------------------- disruption round: StaticDrift + StartCommand
-DriftCands == {c \in NCs : known[c] = "pid" /\ c \in drifted /\ ~MFD(c) /\ c \notin QC /\ api[c] # "gone"}
+\* candidates come from the cluster cache: the Drifted condition must have been delivered (no undelivered event)
+DriftCands == {c \in NCs : known[c] = "pid" /\ c \in drifted /\ c \notin dirty /\ ~MFD(c) /\ c \notin QC /\ api[c] # "gone"}
 \* start of a round: stale taints/conditions of nodes that are neither queued nor marked are cleared (an API patch,
 \* hence an informer event), then candidates are computed from the cluster cache
 X_Begin ==
